@@ -184,7 +184,7 @@ func c17Build(c c17Config) (*c17Fixture, error) {
 		log:                logr.Discard(),
 		profile:            &profile.GameProfile{ID: uuid.UUID{1, 2, 3}, Name: "Player"},
 		// exactly as handshakeSessionHandler.handleHandshake builds it
-		virtualHost: netutil.NewAddr(fmt.Sprintf("%s:%d", c.ServerAddr, c.Port), "tcp"),
+		virtualHost: virtualHostAddr(c.ServerAddr, int(c.Port), "tcp"), // the real construction used by handleHandshake
 	}
 	return f, nil
 }
